@@ -34,7 +34,7 @@ REQUIRED = {
 
 
 def budget(tier):
-    return 320 if tier == "quick" else 8000
+    return 320 if tier == "quick" else 64000
 
 
 def gen_case(rng, tier, idx):
